@@ -214,3 +214,55 @@ def only_called_from(ctx, fi: FuncInfo, owners: set, _seen=None) -> bool:
     if not callers:
         return False
     return all(only_called_from(ctx, g, owners, _seen) for g in set(callers))
+
+
+# --------------------------------------------------------------------------
+# reordering operators
+_CHRONO_KEYS = ("start_time", "end_time")
+
+
+def _key_is_chronological(key: ast.AST | None) -> bool:
+    """key=lambda x: x.start_time | (x.start_time, x.end_time) |
+    attrgetter('start_time'[, 'end_time']): machine lists built by the
+    dispatcher are already ordered by these, so a *stable* sort on them is the
+    identity."""
+    if key is None:
+        return False
+    if isinstance(key, ast.Lambda) and len(key.args.args) == 1:
+        x = key.args.args[0].arg
+        body = key.body
+        parts = list(body.elts) if isinstance(body, ast.Tuple) else [body]
+        names = []
+        for p in parts:
+            if isinstance(p, ast.Attribute) and isinstance(p.value, ast.Name) and p.value.id == x:
+                names.append(p.attr)
+            else:
+                return False
+        return bool(names) and names[0] == "start_time" and all(n in _CHRONO_KEYS for n in names)
+    if isinstance(key, ast.Call) and ast.unparse(key.func).split(".")[-1] == "attrgetter":
+        names = [a.value for a in key.args if isinstance(a, ast.Constant)]
+        return len(names) == len(key.args) and bool(names) and names[0] == "start_time" and all(n in _CHRONO_KEYS for n in names)
+    return False
+
+
+def reorder_ops(root: ast.AST):
+    """Yields (node, what) for every operator under ``root`` that can change
+    the order or multiplicity of a sequence, except stable sorts on the
+    chronological keys without ``reverse``."""
+    for n in ast.walk(root):
+        if isinstance(n, ast.Call):
+            f = n.func
+            kws = {k.arg: k.value for k in n.keywords}
+            if isinstance(f, ast.Name) and f.id == "sorted" or (isinstance(f, ast.Attribute) and f.attr == "sort"):
+                rev = kws.get("reverse")
+                if _key_is_chronological(kws.get("key")) and (rev is None or (isinstance(rev, ast.Constant) and rev.value is False)):
+                    continue
+                yield n, "sorted by `" + (ast.unparse(kws["key"])[:60] if "key" in kws else "natural order") + "`" + (" reversed" if rev is not None else "")
+            elif isinstance(f, ast.Name) and f.id in ("reversed", "set", "frozenset"):
+                yield n, f"{f.id}()"
+            elif isinstance(f, ast.Attribute) and f.attr in ("reverse", "shuffle"):
+                yield n, f".{f.attr}()"
+        elif isinstance(n, ast.Subscript) and isinstance(n.slice, ast.Slice) and n.slice.step is not None:
+            st = n.slice.step
+            if not (isinstance(st, ast.Constant) and st.value == 1):
+                yield n, f"slice with step {ast.unparse(st)}"
